@@ -7,3 +7,5 @@ package fsstore
 const verifEnabled = false
 
 func verifHook(point string, path string) error { return nil }
+
+func verifWriterName(interface{}) string { return "" }
